@@ -20,10 +20,12 @@ def run(ctx: Ctx, chk) -> None:
     chk.run_rule(eea_send, ctx)
     chk.run_rule(not_a_message, ctx)
     chk.run_rule(outcome1, ctx)
+    chk.run_rule(send_dispatches, ctx)
     chk.run_rule(key1, ctx)
     from . import sleepbuf as _sb
 
     chk.run_rule(_sb.buffer_once, ctx)
+    chk.run_rule(_sb.buffer_plain, ctx)
     chk.run_rule(lambda c, k: tables.dispatch_total_rule(c, k, "outgoing"), ctx)
     from . import c08
 
@@ -192,6 +194,31 @@ def not_a_message(ctx: Ctx, chk) -> None:
         chk.ok(rule, key, "missing field -> ValidationError", ctx.loc(post, post.node))
     else:
         chk.refute(rule, key, "the post_dump hook no longer converts a missing field (KeyError) into ValidationError: dumping a non-message raises KeyError", ctx.loc(post, post.node))
+
+
+def send_dispatches(ctx: Ctx, chk, rule: str = "SEND-DISPATCHES") -> None:
+    """Gateway.send itself: it cannot return normally without having run the outgoing handler to completion."""
+    chk.rule(rule, "every path through Gateway.send that returns normally has awaited the outgoing handler of the message (the call of what get_outgoing_message_handler returned): no early return - a de-duplication, rate limit, 'already sending' or 'not connected' shortcut - lets send report success for a message that was neither written nor parked")
+    from ..cfg import CFG, has_await
+
+    send_raw = ctx.func(SEND)
+    send = ctx.inl(send_raw)
+    calls = tables.dispatch_calls(ctx, send, tables.DISPATCH_OUT)
+    chk.floor(rule, "handler dispatch calls in Gateway.send", len(calls), 1)
+    g = CFG(send.node)
+    disp = [n for n in g.nodes if n.kind in ("stmt", "test") and any(n.contains(c) for c in calls)]
+    chk.instance(rule)
+    key = f"{send_raw.fq}::handler-on-every-return"
+    for c in calls:
+        par = ctx.prog.parents.get(c)
+        if not isinstance(par, ast.Await):
+            chk.refute(rule, key, f"`{norm(c)[:70]}` is not awaited in place: send returns before the handler has written or parked the message", ctx.loc(send, c))
+            return
+    p = g.reach_avoiding([g.entry], lambda x: x is g.exit, lambda x: x in disp, labels_skip=("exc",))
+    if p is None:
+        chk.ok(rule, key, f"the exit of send is reached only through `{norm(calls[0])[:60]}`", ctx.loc(send, calls[0]))
+    else:
+        chk.refute(rule, key, f"send can return normally without running the outgoing handler ({' -> '.join(g.path_text(p)[1:6])}): the message is then neither written nor parked although the caller is told it was sent - the last value sent is not the last value written", ctx.loc(send, p[-2].ast if len(p) > 1 and p[-2].ast is not None else send.node))
 
 
 def outcome1(ctx: Ctx, chk) -> None:
